@@ -369,7 +369,7 @@ Section WithArith.
   Qed.
 
   Lemma call_info_spec x s r x' : call_info ar e x s = (r, x') -> x' = x.
-  Proof. unfold call_info. intros H. break_match_hyp; inv_pair; reflexivity. Qed.
+  Proof. unfold call_info. intros H. destruct (get _ (c_accts x)); inv_pair; reflexivity. Qed.
 
   (* ---- one step ---- *)
   Definition tot2 (st : state) : N := N.max (total (fst st)) (total (snd st)).
